@@ -17,6 +17,9 @@ pub enum Split {
     Even { points: usize },
     /// independent byte counts per stream and packet (values straddle packets, empty streams)
     Ragged,
+    /// attribute by attribute: every packet is filled from the first unfinished stream on, so
+    /// early attributes run far ahead of late ones
+    Sequential,
 }
 
 /// The producer's schedule: `encode` is a pure function of (scene, layout).
@@ -83,6 +86,7 @@ pub struct LayoutStats {
     pub max_stream_len_in_packet: u64,
     pub max_non_data_packet_len: u64,
     pub max_index_level: u64,
+    pub long_run_of_non_data: bool,
 }
 
 #[derive(Clone, Debug, Default)]
@@ -232,6 +236,13 @@ fn cv_section(pc: &PcRead, layout: &Layout, r: &mut Rng, stats: &mut LayoutStats
                     }
                 }
             }
+            Split::Sequential => {
+                let mut room = budget;
+                for i in 0..n {
+                    take[i] = (streams[i].len() - cursors[i]).min(room).min(65535);
+                    room -= take[i];
+                }
+            }
             Split::Ragged => {
                 let mut room = budget;
                 let last_chance = left == 0;
@@ -354,9 +365,11 @@ fn cv_section(pc: &PcRead, layout: &Layout, r: &mut Rng, stats: &mut LayoutStats
         stats.non_data_first = true;
         if r.chance(1, 4) {
             // several pages of ignored packets between the section header and the first data packet
-            let k = 2 + r.usize_below(9);
+            // (now and then more than a thousand small packets in a row)
+            let many = r.chance(1, 8);
+            let k = if many { 1030 + r.usize_below(600) } else { 2 + r.usize_below(9) };
             for _ in 0..k {
-                let words = 64 + r.usize_below(200);
+                let words = if many { 1 + r.usize_below(3) } else { 64 + r.usize_below(200) };
                 let mut p = vec![0u8; 4 * words];
                 p[0] = 2;
                 r.fill(&mut p[4..]);
@@ -386,6 +399,20 @@ fn cv_section(pc: &PcRead, layout: &Layout, r: &mut Rng, stats: &mut LayoutStats
         if nd && k + 1 < n_packets && r.chance(1, 3) {
             non_data(&mut bytes, r, &mut patches, &mut index_rel, &data_packet_rels, stats);
             stats.non_data_middle = true;
+            if r.chance(1, 12) {
+                // more than a thousand small ignored packets in one gap between two data packets
+                let many = 1030 + r.usize_below(600);
+                for _ in 0..many {
+                    let words = 1 + r.usize_below(2);
+                    let mut p = vec![0u8; 4 * words];
+                    p[0] = 2;
+                    let l = (p.len() - 1) as u16;
+                    p[2..4].copy_from_slice(&l.to_le_bytes());
+                    bytes.extend_from_slice(&p);
+                }
+                stats.ignored_packets += many as u64;
+                stats.long_run_of_non_data = true;
+            }
         }
     }
     let _ = before;
